@@ -103,6 +103,7 @@ type Peer struct {
 	onUpdate func(p *Peer, c *Conn, u *Update, raw []byte)
 	OpenOverride *OpenSpec // OPEN to send instead of the configuration's (C22)
 	RefuseDial   bool      // connections dialled by the DUT are refused
+	sendDelay    time.Duration // extra latency of everything sent now (batch-instant "par" steps: arrival together with the API calls)
 	Conns        []*Conn   // every connection this endpoint has had
 }
 
@@ -318,7 +319,7 @@ func (p *Peer) Established() bool { return p.state == psEstablished }
 // earlier on the same connection (TCP keeps the order of one stream).
 func (p *Peer) enqueue(c *Conn, b []byte, delay time.Duration) {
 	now := p.env.Sim.Now()
-	at := now
+	at := now + p.sendDelay
 	if at < c.lastPeerTx {
 		at = c.lastPeerTx
 	}
